@@ -15,8 +15,8 @@ EXTENDS Strings
 VARIABLE tid
 Obs == ndJsonDeserialize("obs.ndjson")
 
-TInit == Init /\ tid = 0
-TPick == /\ run = "gen" /\ tid = 0
+TInit == Init /\ scope = 0 /\ tid = 0
+TPick == /\ run = "gen" /\ scope = 0 /\ tid = 0
          /\ \E k \in 1..Len(Obs) : StartA(Obs[k].i) /\ tid' = k
 TNext == TPick \/ ((StepM \/ NextRun) /\ UNCHANGED tid)
 TSpec == TInit /\ [][TNext]_<<vars, tid>>
